@@ -1,6 +1,7 @@
 package main
 
 import (
+	"sort"
 	"bufio"
 	"bytes"
 	"context"
@@ -566,6 +567,44 @@ func checkC12(c *Ctx) error {
 		site   string
 	}
 	var cli []cliCase
+
+	// ---- coverage-guided stage (Go fuzzing engine over the same front end) ----
+	{
+		var seeds [][]byte
+		for _, a := range adversarial {
+			seeds = append(seeds, []byte(a))
+		}
+		join := func(m map[string]string) []byte {
+			var names []string
+			for fn := range m {
+				names = append(names, fn)
+			}
+			sort.Strings(names)
+			var parts []string
+			for _, fn := range names {
+				parts = append(parts, m[fn])
+			}
+			return []byte(strings.Join(parts, c12Sep))
+		}
+		for _, m := range adversarialMulti {
+			seeds = append(seeds, join(m))
+		}
+		for _, b := range bases {
+			seeds = append(seeds, join(b))
+		}
+		crashers, st := c12CoverageGuided(c, seeds, c.N(40000, 1500000))
+		c.Ev.Set("coverage_guided", map[string]any{"executions": st.Execs, "seeds": st.Seeds, "interesting_inputs_kept_by_the_engine": st.Interesting, "failing_inputs_reported": len(crashers), "note": st.Note})
+		c.Logf("coverage-guided stage: %d executions from %d seeds, %d interesting, %d failing inputs %s", st.Execs, st.Seeds, st.Interesting, len(crashers), st.Note)
+		c.Ev.Eval(st.Execs)
+		if !st.Ran && len(crashers) == 0 {
+			c.Inconclusive("coverage-guided-stage-did-not-run: " + st.Note)
+		}
+		for _, data := range crashers {
+			files := c12SplitFuzzInput(data)
+			files["p.go"] = tinyGo
+			cli = append(cli, cliCase{files, "coverage-guided suspect", "fuzz"})
+		}
+	}
 	bySite := map[string]int{}
 	for _, s := range suspects {
 		site := panicSite(s.panic)
@@ -679,6 +718,9 @@ func checkC12(c *Ctx) error {
 			kind, why = "valid-spec-rejected", fmt.Sprintf("exit %d:\n%s", v.exit, trimTo(v.stderr, 1500))
 		}
 		if kind == "" {
+			if strings.Contains(cc.origin, "suspect") {
+				c.Ev.Count("suspects_not_reproduced_by_cli", 1)
+			}
 			if c.Ev.WantSample() {
 				c.Ev.Sample(map[string]any{"origin": cc.origin, "exit": v.exit, "stderr": trimTo(v.stderr, 300), "files": trimFiles(cc.files)})
 			}
